@@ -453,6 +453,9 @@ func runSched(ic *IC, ex *exec.Exec, m *L3Mock, ops []sOp, thorough bool) {
 			check(enc.cons, goal, fmt.Sprintf("C05: no schedule makes conflicting accesses of %s ‖ %s adjacent (data race)", ops[i].Name, ops[j].Name))
 			if thorough {
 				for k := range ops {
+					if !strings.HasSuffix(ops[k].Name, "#0") {
+						continue // third thread: one path variant per operation
+					}
 					n++
 					enc := encodeSchedule(c, fmt.Sprintf("r%d", n), [][]sEv{plain(ops[i]), plain(ops[j]), plain(ops[k])})
 					goal, _ := enc.raceQuery()
@@ -476,7 +479,9 @@ func runSched(ic *IC, ex *exec.Exec, m *L3Mock, ops []sOp, thorough bool) {
 	if thorough {
 		for _, a := range ops {
 			for _, b := range ops {
-				cbPrograms = append(cbPrograms, []sOp{a, b})
+				if strings.HasSuffix(a.Name, "#0") && strings.HasSuffix(b.Name, "#0") {
+					cbPrograms = append(cbPrograms, []sOp{a, b}) // two-operation callbacks: one path variant per operation
+				}
 			}
 		}
 	}
